@@ -993,7 +993,7 @@ class Run:
         return [dict(kind="L" if kind == "L" else "LS", l=l, L=L, srcLen=s, seed=1) for l, s in over[:4]]
 
     # ---- (7) round 2: what a DCtx owns / reports, static contexts never allocate, legacy path, fromFrame, CDict by level
-    OWN_KINDS = ("DOWN", "SDCT", "SCCT", "CPD", "LEGACY", "DFF", "CDLVL", "CSZ", "OSZ", "MTI", "ADV", "MTF", "CHIS", "CPC")
+    OWN_KINDS = ("DOWN", "SDCT", "SCCT", "CPD", "LEGACY", "DFF", "CDLVL", "CSZ", "OSZ", "MTI", "ADV", "MTF", "CHIS", "CPC", "DSG")
 
     def own_history_cases(self):
         rng, ctx = self.rng, self.ctx
@@ -1267,7 +1267,7 @@ class Run:
         for ln, a in zip(mtf, par_run(self.own, mtf, chunks=6)):
             self.h("own:sizeof-mt-failed-resize")
             m = re.match(r"r1=OK r2=(OK|M) allocs=[0-9a-f]+ ok/[0-9a-f]+/[0-9a-f]+ r3=OK ok/[0-9a-f]+/[0-9a-f]+ end=0 badfree=0$", a)
-            ctx.count(("mtf", ln.split()[1], ln.split()[2], ln.split()[4], "SEGV" if "SIZEOF-SEGV" in a else (m.group(1) if m else "BAD")))
+            ctx.count(("mtf", ln.split()[1], ln.split()[2], ln.split()[4], "SEGV" if "-SEGV" in a else (m.group(1) if m else "BAD")))
             if "SIZEOF-SEGV" in a:
                 self.report(dict(kind="sizeof-mt-failed-resize", c_case=ln, c_result=a, harness="c14_own"),
                             "ZSTD_sizeof_CCtx crashes (NULL pool / jobs table) on a live multithreaded CCtx after a worker-count change %s -> %s whose allocation #%d "
@@ -1275,7 +1275,25 @@ class Run:
                             key="C14-sizeof-cctx-after-failed-mt-resize")
             elif not m:
                 self.report(dict(kind="sizeof-mt-failed-resize", c_case=ln, c_result=a, harness="c14_own"),
-                            "multithreaded CCtx after a failed worker-count change: under-reported size, a failing next session or bytes left behind: %s -> %s" % (ln, a[:160]))
+                            "multithreaded CCtx after a failed worker-count change: under-reported size, a failing / crashing next session or bytes left behind: %s -> %s" % (ln, a[:160]))
+            else:
+                ctx.cov["traces_validated_against_impl"] += 1
+        # (j') round 3: real multi-block frames (library-made: matches reaching back the whole window, every block type) through a static
+        #      DStream of exactly ZSTD_estimateDStreamSize_fromFrame(frame) bytes whose end touches a PROT_NONE page
+        gl = []
+        for _ in range(60 if ctx.quick else 600):
+            wlog = rng.choice([10, 10, 11, 12, 13, 14, 15, 16, 17, 18, 20])
+            n_ = rng.choice([1, 1000, (1 << wlog) - 1, 1 << wlog, (1 << wlog) + 1, 3 * (1 << wlog) + 17, 131072, 131073, 300000, 700000])
+            gl.append("DSG %x %x %x %x %x %x %s %x" % (rng.choice([1, 1, 2, 3]), wlog, n_, rng.randint(0, 999), rng.choice([1, 7, 100, 4096, 70000, 1 << 20]),
+                                                       rng.choice([1, 3, 1000, 4096, 1 << 20]), hx(rng.choice([1, 3, 5, 9, 13, -5])), rng.choice([0, 1, 2])))
+        for ln, a in zip(gl, par_run(self.own, gl)):
+            self.h("own:static-dstream-real-frames")
+            f = ln.split()
+            ctx.count(("dsg", f[2], int(f[3], 16) > (1 << int(f[2], 16)), f[8], a.split()[0] if a else "EMPTY"))
+            if not a.startswith("OK "):
+                self.report(dict(kind="static-dstream-real", c_case=ln, c_result=a, harness="c14_own"),
+                            "static DStream of ZSTD_estimateDStreamSize_fromFrame(frame) ending at a guard page cannot decode a library-made frame "
+                            "(windowLog %d, %d bytes): %s" % (int(f[2], 16), int(f[3], 16), a[:100]))
             else:
                 ctx.cov["traces_validated_against_impl"] += 1
         # (k) round 3: ZSTD_copyCCtx between contexts of different allocators: the destination keeps its own
@@ -1300,7 +1318,9 @@ class Run:
         hc = [["W2", "C" + big, "G1", "C" + big, "D3e8/0", "C" + big, "T1", "C" + big, "T2", "C" + big, "T0", "C" + big, "W0", "C" + mid, "W3", "S100000", "Rs", "C" + mid, "Rp", "C64"],
               ["W1", "G1", "w17", "C" + big, "w14", "C" + big, "G0", "C" + big, "P1388", "C" + mid, "K1388", "C" + mid, "k", "X" + big, "Y3", "C3e8"],
               ["W2", "S" + big, "S" + big, "E", "W4", "S" + big, "Rs", "T1", "S" + big, "E", "U1388/3e8", "A186a0/14", "Y13", "W1", "G1", "D186a0/1", "C" + big],
-              ["V13", "C186a0", "V1", "C186a0", "Df4240/0", "C64", "Rp", "W2", "J100000", "S" + big, "S" + big, "S" + big, "E"]]
+              ["V13", "C186a0", "V1", "C186a0", "Df4240/0", "C64", "Rp", "W2", "J100000", "S" + big, "S" + big, "S" + big, "E"],
+              # a multithreaded frame abandoned with unflushed jobs, then the next multithreaded session (same / other worker count)
+              ["V1", "W2", "S180000", "S180000", "Rs", "S180000", "E", "W3", "S180000", "Rs", "W2", "C" + big, "S180000", "Rp", "W1", "C" + big]]
         for _ in range(4 if ctx.quick else 60):
             ops = ["V%s" % hx(rng.choice([1, 1, 2, 3, -5]))]
             for _ in range(rng.randint(4, 16)):
@@ -1352,6 +1372,9 @@ class Run:
         # call that resizes 1 -> 3, creates a local CDict, grows the round buffer and allocates both LDM tables (13 allocations)
         for k in range(0, 15):
             cases.append(("1", "-", ["I3/%s/12/3e8/14/0" % (fail_at(k) if k else "-"), "I3/-/12/3e8/14/0", "G1000/1", "I3/-/0/0/14/0", "I3/-/10/0/14/80000", "I2/-/14/186a0/17/0"]))
+        # a round buffer / LDM tables that EXIST and must grow, with the growing allocation failing (the old block is released first)
+        cases.append(("2", "-", ["I2/-/0/0/14/0", "I2/0/0/0/14/800000", "I2/-/0/0/14/800000", "I2/-/10/0/14/0", "I2/0/14/0/14/0", "I2/10/14/0/14/0", "I2/-/14/0/14/0",
+                                 "I2/-/0/3e8/14/0", "I2/0/0/1388/14/0", "I2/-/0/1388/14/0"]))
         # more unflushed jobs than the buffer pool has slots (2 workers: job table of 8, pool of 7): the 8th release frees; then no free job slot
         cases.append(("2", "-", ["G1000/1"] * 9 + ["F0"] * 9 + ["G1000/1", "S3/-", "G7d0/1"]))
         for _ in range(30 if ctx.quick else 400):
@@ -1438,7 +1461,15 @@ class Run:
                 self.report(dict(kind="mt-own", c_case=ln, c_result=a[:1200], model_result=b[:1200], harness="c14_mt"), what, key=key)
                 continue
             ctx.cov["traces_validated_against_impl"] += 1
-            if a.replace(" badfree=0", "") != b.replace("!", ""):
+            a2, b2 = a.replace(" badfree=0", ""), b.replace("!", "")
+            if self.variant != "o1":
+                # sanitizer build: the workspace redzone in front of a CDict / CCtx structure makes ZSTD_sizeof_CDict (hence
+                # ZSTDMT_sizeof_CCtx) count that structure twice: an over-report.  Everything else is compared exactly
+                ta, tb = a2.split(), b2.split()
+                if len(ta) == len(tb) and all(x.split("/")[:7] == y.split("/")[:7] and (x.count("/") != 7 or int(x.split("/")[7], 16) >= int(y.split("/")[7], 16))
+                                              for x, y in zip(ta, tb)):
+                    a2 = b2
+            if a2 != b2:
                 self.disagreements.append(("mt-own", ln, a[:400], b[:400]))
         ctx.sample(dict(kind="mt-ownership", c_case=cl[14][:200], c_result=cr[14][:300], model=mr[14][:300]))
         core.log("C14 round-3 tie: %d multithreaded-context unit histories; %d disagreements so far" % (len(cl), len(self.disagreements)))
@@ -1545,7 +1576,11 @@ def run(ctx):
         "allocator, static DCtx (4 fill bytes x 7 operations) and static CCtx (11 operations) with every malloc of the process counted, "
         "ZSTD_copyDCtx across static/heap, legacy v0.5-0.7 frames around the window limit, fromFrame sessions (single segment 0..131071, "
         "descriptors 0..60), CDict by level (10 dictionary sizes x levels x hints), sizeof of heap CCtx/CDict/DDict incl. a multithreaded "
-        "context mid-frame, raw cParams through ZSTD_compress_advanced; all randomness from random.Random(VERIF_SEED). "
+        "context mid-frame, raw cParams through ZSTD_compress_advanced; round 3: unit histories of the multithreaded context (every failure "
+        "position of creation / resize / a whole ZSTDMT_initCStream_internal call, pools kept / rebuilt / NULL, buffers at the size-conditions "
+        "boundaries, a full pool, growing tables whose allocation fails) compared with the model, heap CCtx ownership histories and DCtx "
+        "histories with allocation-failure tokens, failed worker-count changes, ZSTD_copyCCtx across allocators, 19 static-CCtx entry points; "
+        "all randomness from random.Random(VERIF_SEED). "
         "distinct_nontrivial counts distinct (case kind, outcome, parameter shape: strategy / minMatch=3 / rowLog / row mode / LDM / "
         "buffer modes / level pair / source-size tier, number of reservations) signatures; SKIP outcomes are trivial.")
     if ctx.replay_file:
